@@ -7,7 +7,12 @@ import "taskverif/an"
 // Registry maps property ids to their rule sets.
 var Registry = map[string]func(*an.Ctx){}
 
-func register(id string, f func(*an.Ctx)) { Registry[id] = f }
+func register(id string, f func(*an.Ctx)) {
+	Registry[id] = func(c *an.Ctx) {
+		groupProg = c.P
+		f(c)
+	}
+}
 
 // Thorough runs the additional work of the thorough tier.
 func Thorough(c *an.Ctx, prop string, seed int64, extra map[string]interface{}) {
